@@ -125,6 +125,17 @@ def run_shard(ctx):
             break
         case = gen_case(rng)
         check(ctx, case)
+        if i % 4 == 0 and case['y'].ndim == 2 and len(case['y']) >= 2:
+            # history: the caller keeps the candidate array and overwrites it in place before the next call
+            ybuf = case['y']
+            for rep in range(2):
+                if rep == 0:
+                    ybuf[:] = ybuf[::-1].copy()
+                else:
+                    ybuf[:] = rng.standard_normal(ybuf.shape) if not case['ties'] else rng.integers(0, 6, ybuf.shape)
+                c2 = dict(case, y=ybuf, note='y buffer overwritten in place after a previous call with the same array object')
+                ctx.count('calls_on_reused_y_buffer')
+                check(ctx, c2)
         if i < 2:
             ctx.sample({'x_shape': case['x'].shape, 'y_shape': case['y'].shape, 'K': case['K'], 'bound': case['bound'], 'ties': case['ties'],
                         'x_head': np.round(np.asarray(case['x']).reshape(-1)[:4], 3)})
